@@ -27,7 +27,7 @@ ASSUMPTIONS = [
     'a joined field that reuses an existing target field name has the same type',
 ]
 BUDGET = {'quick': dict(examples=1600, shards=8, seconds=70),
-          'thorough': dict(examples=40000, shards=16, seconds=1500)}
+          'thorough': dict(examples=40000, shards=16, seconds=1200)}
 
 KEY_STR = ['a', 'b', 'a:b', 'c', 'b:c', '', 'None', 'é']
 KEY_INT = [0, 1, 2, 10]
@@ -60,11 +60,12 @@ def _val(t):
 def small_case(draw):
     ktypes = [draw(st.sampled_from(['string', 'integer'])) for _ in range(2)]
     nk = draw(st.integers(1, 2))
-    kform = draw(st.sampled_from(['list', 'fmt', 'fmt-lit', 'rownum-list', 'rownum-fmt', 'list', 'fmt', 'fmt-conv', 'fmt-spec']))
+    kform = draw(st.sampled_from(['list', 'fmt', 'fmt-lit', 'rownum-list', 'rownum-fmt', 'list', 'fmt', 'fmt-conv', 'fmt-spec',
+                                  'rownum-mixed']))
     if kform.startswith('rownum'):
         nk = 1
     sk = ['sk1', 'sk2'][:nk]
-    tk = draw(st.sampled_from([['tk1', 'tk2'], ['sk1', 'sk2']]))[:nk]
+    tk = draw(st.sampled_from([['tk1', 'tk2'], ['sk1', 'sk2'], ['zk1', 'ak2']]))[:nk]
     if kform == 'list':
         skey, tkey = list(sk), list(tk)
     elif kform == 'fmt':
@@ -78,6 +79,8 @@ def small_case(draw):
         # a format spec needs non-null integers
         ktypes[0] = ktypes[1] = 'integer'
         skey, tkey = 'C-' + '-'.join('{%s:03d}' % k for k in sk), 'C-' + '-'.join('{%s:03d}' % k for k in tk)
+    elif kform == 'rownum-mixed':
+        skey, tkey = '{%s}@{#}' % sk[0], '{%s}@{#}' % tk[0]
     elif kform == 'rownum-list':
         skey, tkey = ['#'], ['#']
     else:
@@ -89,7 +92,7 @@ def small_case(draw):
     vals = draw(st.lists(st.sampled_from(VAL_FIELDS), min_size=n_vals, max_size=n_vals, unique=True))
     sfields = [{'name': k, 'type': t} for k, t in zip(['sk1', 'sk2'], ktypes)] + \
               [{'name': n, 'type': t} for n, t in vals]
-    tfields = [{'name': k, 'type': t} for k, t in zip(tk if len(tk) == 2 else tk + ['tk2' if tk[0] == 'tk1' else 'sk2'], ktypes)] + \
+    tfields = [{'name': k, 'type': t} for k, t in zip(tk if len(tk) == 2 else tk + [{'tk1': 'tk2', 'sk1': 'sk2', 'zk1': 'ak2'}[tk[0]]], ktypes)] + \
               [{'name': 't_own', 'type': 'string'}]
     reuse = draw(st.booleans()) and any(n == 'v_str' for n, _ in vals)
     if reuse:
@@ -100,7 +103,7 @@ def small_case(draw):
         for _ in range(n):
             r = {}
             for f in flds:
-                if f['name'] in ('sk1', 'sk2', 'tk1', 'tk2'):
+                if f['name'] in ('sk1', 'sk2', 'tk1', 'tk2', 'zk1', 'ak2'):
                     r[f['name']] = draw(_keyvals(f['type']))
                     if kform == 'fmt-spec' and r[f['name']] is None:
                         r[f['name']] = 7
@@ -168,10 +171,15 @@ def big_case(draw):
             'agg': draw(st.sampled_from(['sum', 'count', 'array', 'first', 'last', 'max']))}
 
 
+@st.composite
+def _mix(draw, tier):
+    if gen.rare(draw, 20 if tier == 'thorough' else 4):
+        return draw(big_case())
+    return draw(small_case())
+
+
 def cases(tier):
-    if tier == 'thorough':
-        return st.one_of(*([small_case()] * 40 + [big_case()]))
-    return st.one_of(*([small_case()] * 300 + [big_case()]))
+    return _mix(tier)
 
 
 def expand_big(c):
@@ -332,7 +340,7 @@ def _scalar(v):
 def match_unordered(got_rows, exp_rows, declared, sig):
     """Multiset matching of unordered output against expected rows that may contain 'any of' placeholders:
     a maximum bipartite matching (augmenting paths), bucketed on the first key field to stay fast on big cases."""
-    bf = next((f for f in ('sk1', 'tk1') if f in declared), None)
+    bf = next((f for f in ('sk1', 'tk1', 'zk1') if f in declared), None)
     if len(exp_rows) <= 400:
         bf = None               # small cases: one global matching (placeholders may stand for any key value)
     groups = collections.defaultdict(lambda: ([], []))
